@@ -245,6 +245,29 @@ def shape_lexnum(item, ob):
         ob.check(name + ' = the number the text spells', pc, goal, replay=replay, cls='C15/lex number/value', prefer=pref, sample='one IntLit / RatLit token holding sum(digit * base^i)'); ob.witness(tok.variant)
     ob.absorb_engine(E)
 
+def shape_lextotal(item, ob):
+    """totality of the main Lexer::lex loop around a number: a numeric text followed by ONE arbitrary character (any Unicode scalar value),
+    optionally followed by a suffix (the character is non-ASCII): lexing ends with tokens or an Invalid token, never with a panic"""
+    head, tail = item
+    E = eng(); f = lex_fn(E, 'lex'); c = z3.Int('c')
+    text = [z3.IntVal(ord(ch)) for ch in head] + [c] + [z3.IntVal(ord(ch)) for ch in tail]
+    def run():
+        E.assume(z3.Or(z3.And(c >= 128, c < 0xD800), z3.And(c >= 0xE000, c <= 0x10FFFF)))          # non-ASCII: ASCII continuations (., e, f, i, j, r, q, digits) are the subject of the lexnum shapes / std float parsing
+        cell = Cell(lexer(text)); E.run_fn(f, [Ref(cell)])
+        return cell.v.fields[3]
+    def replay(model):
+        t = src_of([z3.simplify(x).as_long() if z3.is_int_value(z3.simplify(x)) else mval(model, x) for x in text])
+        if any(ch in t for ch in '\n\r'): return None
+        return {'program': t, 'expect': {'not_panic': 1}}
+    # non-ASCII numerics, letters, then ASCII: the counterexample has to be a character the real predicates agree on
+    pref = [[c == 0xB2], [c == 0x663], [c == 0xBD], [c == 0xE9]]
+    for pc, kd, res, lg in E.explore(run):
+        ob.paths += 1; name = f'Lexer::lex on {head!r} + any character + {tail!r}'
+        if kd == 'panic': ob.panic(name + ' panic-free', pc, res, replay=replay, cls='C15/lex total/panic', prefer=pref); continue
+        if kd != 'ok': ob.missing(name, f'{kd}: {res}'); continue
+        ob.check(name + ' returns tokens', pc, z3.BoolVal(isinstance(res, Seq)), replay=replay, cls='C15/lex total/result', sample='a token list (possibly ending in Invalid), no unwinding'); ob.witness('tokens')
+    ob.absorb_engine(E)
+
 def shape_parser_int(item, ob):
     """parser units that turn an integer literal token into a machine value: try_consume_u8 (elements of B[...]) and try_consume_usize:
     Ok(Some(value)) with exactly the literal's value and the cursor advanced iff it is in range; an out-of-range literal is a parse error; another token is Ok(None)"""
@@ -314,7 +337,7 @@ def shape_parser_atom(item, ob):
 
 def run_shape(item, ob):
     fam, payload = item
-    {'string': shape_string, 'radix': shape_radix, 'lexnum': shape_lexnum, 'parser_int': shape_parser_int, 'parser_atom': shape_parser_atom}[fam](payload, ob)
+    {'string': shape_string, 'radix': shape_radix, 'lexnum': shape_lexnum, 'lextotal': shape_lextotal, 'parser_int': shape_parser_int, 'parser_atom': shape_parser_atom}[fam](payload, ob)
 
 def main(tier, seed, t0):
     global MIR
@@ -336,6 +359,8 @@ def main(tier, seed, t0):
         for k in (1, 2): items.append(('lexnum', ('zero', prefix, k)))
     for k in (1, 2, 3):
         items.append(('lexnum', ('dec', '', k))); items.append(('lexnum', ('rat', '', k)))
+    for head, tail in (('1', ''), ('12', ''), ('16r1', ''), ('0x1', '')):
+        items.append(('lextotal', (head, tail)))
     for meth in ('try_consume_u8', 'try_consume_usize'):
         for tk in ('int', 'other'): items.append(('parser_int', (meth, tk)))
     for kind in ('int', 'rat'): items.append(('parser_atom', (kind,)))
